@@ -158,7 +158,10 @@ pub fn baseline<B: FA, H: ElementHasher<BaseField = B> + Send + Sync>(shape: &Sh
         },
     }
     if positions.len() != proof.num_unique_queries as usize {
-        return Err(Fail::new("harness/positions", "replayed query positions do not match num_unique_queries"));
+        return Err(Fail::new(
+            "reference-transcript/unique-queries",
+            format!("the documented transcript of an honest accepted proof gives {} distinct query positions, the proof says num_unique_queries = {}", positions.len(), proof.num_unique_queries),
+        ));
     }
     Ok(Some(Baseline { desc, opts: inst.opts.clone(), labels: inst.labels.clone(), proof, bytes, fields, positions }))
 }
